@@ -130,6 +130,7 @@ type gen struct {
 	tagN          int
 	inExprClosure int
 	inExprCall    int
+	noReturn      int  // >0: no early return statements (inside a default clause)
 	noCmt         int  // >0: no comment decoration (inside type / const groups)
 	skipCmt       bool // no comment line before the next statement (it follows a label)
 	rangeNext     bool // the next loop body pushed belongs to a range loop
